@@ -19,7 +19,12 @@ var _ KeyBuilderContext = &subContext{}
 var subContextPool = slicepool.NewObjectPool[subContext](5)
 
 func (s *subContext) GetMatch(idx int) string {
-	if idx >= 0 && idx < len(s.vals) {
+	if idx < 0 {
+		// Not an element index: pass through, so a stage that touches the context to stay
+		// un-optimized (eg. {time live}) still does when nested in a sub-expression
+		return s.parent.GetMatch(idx)
+	}
+	if idx < len(s.vals) {
 		return s.vals[idx]
 	}
 	return ""
